@@ -1,6 +1,7 @@
 import decimal
 import io
 import json
+import math
 import re
 import collections
 from collections import deque
@@ -514,6 +515,9 @@ class TypeTransformer:
 
         data = self._attempt_from(data)
         if isinstance(data, (int, float, Decimal)):
+            if not math.isfinite(data):
+                # an infinite timestamp can never be scaled down below the watershed (and nan is no timestamp)
+                raise TypeError(f'invalid timestamp: {data}')
             while abs(data) > self.MS_WATERSHED:
                 data /= 1000
             return t.utcfromtimestamp(data).replace(tzinfo=timezone.utc)
@@ -552,6 +556,8 @@ class TypeTransformer:
         except (TypeError, ValueError):
             pass
         else:
+            if not math.isfinite(num):
+                raise TypeError(f'invalid timestamp: {num}')
             while abs(num) > self.MS_WATERSHED:
                 num /= 1000
             return t.utcfromtimestamp(num).replace(tzinfo=timezone.utc)
